@@ -269,6 +269,12 @@ def u_ctl():
     add("ctl-names", ["_iftarg2: bool", "_iftarg3: bool"], "bool", ["c = _iftarg3", "if _iftarg2:", "    c = not c", "if c:", "    c = _iftarg2", "return c"])
     add("ctl-names", ["q0: bool", "q1: bool"], "bool", "return q0 and not q1")
     add("ctl-names", ["i: %s" % Q2, "x: %s" % Q2], Q4, ["c = 0", "for i in range(3):", "    c += x", "return c + i"])
+    # a copy of a flag stays what it was when the flag is updated afterwards (xor / not / or updates)
+    add("ctl-alias", ["a: bool", "b: bool", "c: bool"], "Tuple[bool, bool]", ["p = a and b", "q = p", "p = p ^ c", "return (p, q)"])
+    add("ctl-alias", ["a: Qlist[bool, 4]"], "Tuple[bool, bool]", ["p = a[0] and a[1]", "q = p", "for i in range(2, 4):", "    p = p ^ a[i]", "return (p, q)"])
+    add("ctl-alias", ["a: bool", "b: bool", "c: bool"], "Tuple[bool, bool]", ["p = a or b", "q = p", "p = not p", "r = q and c", "return (r, p)"])
+    add("ctl-alias", ["a: bool", "b: bool", "c: bool"], "bool", ["p = a and b", "q = p", "p ^= c", "p ^= a", "return q and not p"])
+    add("ctl-alias", ["a: %s" % Q2, "b: %s" % Q2], "Tuple[%s, %s]" % (Q2, Q2), ["p = a + b", "q = p", "p ^= b", "return (p, q)"])
     # a returned alias of an argument still needs its own output qubit
     add("ctl-alias", ["a: bool", "b: bool"], "bool", ["v = a", "return v"])
     add("ctl-alias", ["a: bool", "b: bool"], "bool", ["v = b", "w = v", "return w"])
